@@ -271,7 +271,7 @@ def compare(cfg, cases, impl, model):
             I = impl[ci][li]; M, S, IS, MS = model[ci][li][:4]
             stats['lines'] += 1
             if I.startswith('none') or I == 'err': stats['impl_none' if I != 'err' else 'impl_err'] += 1
-            if 'panic' in I: stats['impl_panic'] += 1
+            if I == 'panic' or I.endswith(';panic'): stats['impl_panic'] += 1
             if M.startswith('SCRIPT-ERROR') or I.startswith('SCRIPT-ERROR'):
                 findings.append(Finding('machinery', cfg, ci, li, req, I, M, S, 'script error')); continue
             if MS == 'BAD':
